@@ -54,6 +54,22 @@ CHECKS = {
         'marginal content and the text-descriptor VMDK class admit either '
         'answer.',
         'DESIGN.md section 4 C03'),
+    'C04': (
+        'grammar-based construction with expected output known by '
+        'construction + idempotence (exhaustive key x rendering x character '
+        'table, Hypothesis composite messages)',
+        'exploration',
+        'All 35 pinned keys x case/digit variants x 27 renderings x 63 '
+        'special characters are enumerated; composite messages of 1-3 '
+        'secrets (1-40 characters, regex metacharacters, non-ASCII, spaces '
+        'inside quoted/XML renderings) in neutral context x 7 masks are '
+        'sampled. Output must equal the message with each secret replaced by '
+        'the mask; masking again changes nothing; key-free messages are '
+        'unchanged. Finding F-e is routed by predicate (tied to its probe).',
+        'Renderings outside the documented list are not claimed; a '
+        'JSON-style item followed by later quoted text is the recorded '
+        'finding F-e.',
+        'DESIGN.md section 4 C04'),
     'C05': (
         'invariant monitored after every chunk of generated schedules over '
         'hostile-field images (Hypothesis + deterministic sweeps)',
@@ -107,6 +123,22 @@ CHECKS = {
         'Plain string values use the real mask_password as reference (C04 '
         'owns it); the 35 sanitize keys are pinned in the harness.',
         'DESIGN.md section 4 C08'),
+    'C09': (
+        'program generation: handler bodies as small ASTs interpreted against '
+        'the real helpers with a reference semantics (exhaustive to a node '
+        'bound + Hypothesis)',
+        'exploration',
+        'Every handler body up to 3 (quick) / 4 (thorough) nodes over {nop, '
+        'raise-and-catch, toggle reraise, nested save_and_reraise, capture, '
+        'force_reraise, raise new} x 5 exception kinds x initial flag is '
+        'enumerated, deeper bodies sampled; outcome predicted by object '
+        'identity, traceback tail and error-log count; exception_filter over '
+        'all use forms x predicate table, remove_path_on_error and '
+        'raise_with_cause tables are complete.',
+        'Bodies run inside an except block (the statement presupposes an '
+        'active exception); greenthread switches are modelled only by '
+        'raise-and-catch; finding F-g routed by predicate.',
+        'DESIGN.md section 4 C09'),
     'C12': (
         'round trips + integer-microsecond reference model, boundary-aimed '
         'generation, exhaustive minute offsets',
